@@ -5,6 +5,10 @@ Oracle for `transmit.DirectTransmission` (C26).
 
 case args: mb=<MaxBatchSize> bt=<BatchTimeout ms> z= ah= sto= nd=<n> d<i>=<host>|<key>|<dataset>|<ok|bad>
 ops:  start | enq <dest> <target> s=<script> | adv <ns> s=<script> | stop s=<script>
+      cenq <k> <dest.dest…> s=<script>   k concurrent enqueues (event i goes to the i-th destination,
+                                         cyclically); the model runs them one after the other in the order
+                                         of `ext order <first id> = <id.id…>` (ids the implementation lost
+                                         track of are appended: any linearisation keeps every event)
 ext:  size <id> = <bytes|err>        serialized size of the event (the real MarshalMsg)
       ra <raw> = d<ns> | t<ns> | x   how time.ParseDuration / http.ParseTime read a Retry-After value
 obs:  p=<ticker periods>                                        (start)
@@ -140,6 +144,24 @@ def oStep (o : OSt) (op : List String) (exts : List (List String)) : OSt × Opti
       let size := (extVal exts "size" (toString id)).bind String.toNat?
       let s' := enq o.cfg s ⟨id, d, size, 0⟩ script
       ({ o with st := some s', nextId := id + 1 }, some (obsOf o s' (s'.disps.drop s.disps.length) toks))
+  | "cenq" :: k :: dl :: _, some s =>
+    let dls := (dl.splitOn ".").filterMap fun x => x.toNat?.bind (o.dests[·]?)
+    match k.toNat? with
+    | none => (o, some "bad-op")
+    | some k =>
+      if dls.isEmpty || dls.length != (dl.splitOn ".").length then (o, some "bad-op") else
+      let base := o.nextId
+      let given := match extVal exts "order" (toString base) with
+        | some "-" => []
+        | some v => (v.splitOn ".").filterMap String.toNat?
+        | none => []
+      let all := (List.range k).map (· + base)
+      let order := (given.filter all.contains).eraseDups ++ all.filter (fun i => !given.contains i)
+      let s' := order.foldl (fun st id =>
+        let d := dls.getD ((id - base) % dls.length) ⟨"", "", ""⟩
+        let size := (extVal exts "size" (toString id)).bind String.toNat?
+        enq o.cfg st ⟨id, d, size, 0⟩ script) s
+      ({ o with st := some s', nextId := base + k }, some (obsOf o s' (s'.disps.drop s.disps.length) toks))
   | "adv" :: d :: _, some s =>
     match d.toNat? with
     | none => (o, some "bad-op")
@@ -164,6 +186,7 @@ structure MEv where
   dest : Nat
   t0 : Nat
   fit : Bool
+  rank : Nat := 0          -- number of the enqueue operation (concurrent enqueues share one)
   seen : Bool := false
 
 structure MSt where
@@ -173,6 +196,7 @@ structure MSt where
                                 -- built, or the dataset is one `url.JoinPath` cleans away
   now : Nat := 0
   evs : List MEv := []
+  nops : Nat := 0
   stopped : Bool := false
 
 def mInit (args : List String) : MSt :=
@@ -187,6 +211,14 @@ def maxEventBytes : Nat := Refinery.Gen.Transmit.apiMaxEventSize.toNat
 
 def strictlyIncreasing : List Nat → Bool
   | a :: b :: t => a < b && strictlyIncreasing (b :: t)
+  | _ => true
+
+/-- enqueue order: ids ascending, except that events enqueued concurrently (same rank) may come in
+any order -/
+def inEnqueueOrder (evs : List MEv) : List Nat → Bool
+  | a :: b :: t =>
+    let rk (i : Nat) := ((evs.find? (·.id == i)).map (·.rank)).getD 0
+    (a < b || (a != b && rk a == rk b)) && inEnqueueOrder evs (b :: t)
   | _ => true
 
 /-- runs of equal consecutive id lists: the attempts of one sub-batch -/
@@ -215,7 +247,7 @@ def monGroup (m : MSt) (grp : String) : MSt × List Fail :=
           (if len > maxBodyBytes then [fail "C26:body-over-5MB" s!"request body of {len} bytes to d{di}"] else []) ++
           (if ids.length > m.mb then [fail "C26:batch-over-MaxBatchSize" s!"request with {ids.length} events, MaxBatchSize {m.mb}"] else []) ++
           (if ids.isEmpty then [fail "C26:empty-request" s!"request without events to d{di}"] else []) ++
-          (if !strictlyIncreasing ids then [fail "C26:order-not-preserved" s!"events {idsS} of one request are not in enqueue order"] else []) ++
+          (if !inEnqueueOrder m.evs ids then [fail "C26:order-not-preserved" s!"events {idsS} of one request are not in enqueue order"] else []) ++
           ids.flatMap fun id =>
             match m.evs.find? (·.id == id) with
             | none => [fail "C26:unknown-event-sent" s!"event {id} in a request was never enqueued"]
@@ -236,21 +268,31 @@ def monGroup (m : MSt) (grp : String) : MSt × List Fail :=
         let evs := acc.1.evs.map fun e => if run.1.contains e.id then { e with seen := true } else e
         ({ acc.1 with evs := evs },
          acc.2 ++ (if dup.isEmpty then [] else [fail "C26:event-in-two-batches" s!"events {natList dup} were placed in more than one sub-batch"]))) (m, [])
-      let orderFails := if strictlyIncreasing (rs.flatMap (·.1)) then []
+      let orderFails := if inEnqueueOrder m.evs (rs.flatMap (·.1)) then []
         else [fail "C26:order-not-preserved" s!"sub-batches to d{di} are not in enqueue order"]
       (m', perRec ++ attemptFails ++ dupFails ++ orderFails)
   | _ => (m, [fail "C26:unreadable-observation" grp])
 
 def tMon (m : MSt) (op : List String) (exts : List (List String)) (obs : Option String) : MSt × List Fail :=
   -- the operation itself
+  let m := { m with nops := m.nops + 1 }
   let m := match op with
+    | "cenq" :: k :: dl :: _ =>
+      if m.stopped then m else
+      let dls := (dl.splitOn ".").map fun x => x.toNat?.getD 999
+      (List.range (k.toNat?.getD 0)).foldl (fun m i =>
+        let id := m.evs.length
+        let fit := match (extVal exts "size" (toString id)).bind String.toNat? with
+          | some n => decide (n ≤ maxEventBytes)
+          | none => false
+        { m with evs := m.evs ++ [{ id := id, dest := dls.getD (i % dls.length) 999, t0 := m.now, fit := fit, rank := m.nops }] }) m
     | "enq" :: di :: _ =>
       if m.stopped then m else
       let id := m.evs.length
       let fit := match (extVal exts "size" (toString id)).bind String.toNat? with
         | some n => decide (n ≤ maxEventBytes)
         | none => false
-      { m with evs := m.evs ++ [{ id := id, dest := di.toNat?.getD 999, t0 := m.now, fit := fit }] }
+      { m with evs := m.evs ++ [{ id := id, dest := di.toNat?.getD 999, t0 := m.now, fit := fit, rank := m.nops }] }
     | "adv" :: d :: _ => { m with now := m.now + d.toNat?.getD 0 }
     | _ => m
   match op, obs with
